@@ -371,7 +371,11 @@ class Formatter(FormatterInterface):
         # Get a table of functions for this type, if available
         arg_type = self.scalar_type
         if hasattr(c.args[0], "dtype"):
-            if c.args[0].dtype == L.DataType.REAL:
+            # The real function may only be used if no other argument is
+            # complex-valued (e.g. a real base raised to a complex exponent)
+            if c.args[0].dtype == L.DataType.REAL and not any(
+                getattr(arg, "dtype", None) == L.DataType.SCALAR for arg in c.args[1:]
+            ):
                 arg_type = self.real_type
         else:
             warnings.warn(f"Syntax item without dtype {c.args[0]}")
